@@ -303,7 +303,7 @@ pub fn run_pools(ctx: &mut Ctx) {
 
 /// Time functions on a grid: parse_time / parse_time_with_zone on every combination of 14 years (1066 .. 9999),
 /// 7 dates, 5 times of day, 8 fractions / 7 zones written in the three numeric layouts the
-/// reference decides, and format_time on 16 instants x every format of the pool.
+/// reference decides, and format_time on 28 instants (year 1 to 9999, before and after 1970) x every format of the pool.
 pub struct C04Times;
 impl Check for C04Times {
     type Case = Case04;
@@ -327,13 +327,13 @@ pub fn run_times(ctx: &mut Ctx) {
     const TIMES: [(u32, u32, u32); 5] = [(0, 0, 0), (23, 59, 59), (13, 51, 55), (12, 0, 0), (0, 0, 1)];
     const FRACS: [&str; 8] = ["", ".5", ".25", ".360", ".360367", ".000001", ".999999", ".123456789"];
     const ZONES: [&str; 7] = ["+0000", "+0500", "-0330", "+1400", "-1200", "+0545", "-0001"];
-    const INSTANTS: [&str; 16] = ["0", "1", "59", "60", "3599", "86399", "86400", "951782400", "951868800", "1701611515", "2147483647", "2147483648", "4102444799", "4102444800", "1.0", "68169600"];
+    const INSTANTS: [&str; 28] = ["0", "1", "59", "60", "3599", "86399", "86400", "951782400", "951868800", "1701611515", "2147483647", "2147483648", "4102444799", "4102444800", "1.0", "68169600", "-1", "-86400", "-86401", "-2208988800", "-28526256000", "-62135596800", "32503680000", "99999999999", "100000000000", "100000000001", "253402300799", "4294967296"];
     let fmts = crate::pools::pool_lits(TimeFmt);
     let n_plain = (YEARS.len() * DATES.len() * TIMES.len() * FRACS.len()) as u64;
     let n_zone = (YEARS.len() * DATES.len() * TIMES.len() * ZONES.len()) as u64;
     let n_fmt = (INSTANTS.len() * fmts.len()) as u64;
     let total = n_plain + n_zone + n_fmt;
-    let space = format!("parse_time: {} date-times x 8 fractions; parse_time_with_zone: {} date-times x 7 zones; format_time: 16 instants x {} formats", YEARS.len() * DATES.len() * TIMES.len(), YEARS.len() * DATES.len() * TIMES.len(), fmts.len());
+    let space = format!("parse_time: {} date-times x 8 fractions; parse_time_with_zone: {} date-times x 7 zones; format_time: 28 instants (year 1 to 9999) x {} formats", YEARS.len() * DATES.len() * TIMES.len(), YEARS.len() * DATES.len() * TIMES.len(), fmts.len());
     run_enum(ctx, "C04.times", total, &space, |idx| {
         let pick = |mut r: u64| {
             let y = YEARS[(r % 14) as usize];
@@ -355,7 +355,7 @@ pub fn run_times(ctx: &mut Ctx) {
             Expr::call("parse_time_with_zone", vec![Expr::Lit(format!("\"{:04}-{:02}-{:02} {:02}:{:02}:{:02} {}\"", y, m, d, hh, mi, ss, z)), Expr::Lit("\"%Y-%m-%d %H:%M:%S %z\"".to_string())])
         } else {
             let j = idx - n_plain - n_zone;
-            Expr::call("format_time", vec![Expr::Lit(INSTANTS[(j % 16) as usize].to_string()), Expr::Lit(fmts[(j / 16) as usize].clone())])
+            Expr::call("format_time", vec![Expr::Lit(INSTANTS[(j % 28) as usize].to_string()), Expr::Lit(fmts[(j / 28) as usize].clone())])
         };
         let case = Case04 { e, vars: vec![], macros: vec![], priors: vec![], inputs: vec!["null".to_string()], spell: Spell { alias: idx % 2 == 1, sep: (idx % 3) as u8, sugar: false, pad: false, seed: idx } };
         let res = C04Eval.check(&case);
